@@ -234,3 +234,142 @@ def eval_local_job_states(ctx):
     except (Raised, Unsupported) as exc:
         return f"<{exc}>", m
     return got, m
+
+
+# ---------------------------------------------------------------------------- dependency graph witnesses
+def _mk_targets(spec, order):
+    objs = {name: Obj("target", name=name, _ins=list(ins), _outs=list(outs)) for name, (ins, outs) in spec.items()}
+    return objs, [objs[n] for n in order]
+
+
+def eval_graph(ctx, spec, order, existing):
+    """Graph.from_targets on a symbolic workflow: returns ('ok', relations) or ('raise', kind) or ('unsupported', msg)."""
+    idx = ctx.index
+    gcls = idx.cls("gwf.core:Graph")
+    ft = idx.method(gcls, "from_targets")
+    objs, tlist = _mk_targets(spec, order)
+    hooks = {
+        "attr:flattened_inputs": lambda recv, *a: list(recv._ins),
+        "attr:flattened_outputs": lambda recv, *a: list(recv._outs),
+        "attr:exists": lambda recv, p: p in existing,
+    }
+    interp = PureInterp(ctx, hooks=hooks, max_depth=60)
+    fs = Obj("fs")
+    try:
+        g = interp.call(ft, ({o.name: o for o in tlist}, fs), {}, self_obj=gcls)
+    except Raised as exc:
+        return "raise", exc.kind
+    except Unsupported as exc:
+        return "unsupported", str(exc)
+    kw = g.__dict__["_attrs"].get("_kwargs", {})
+    names = lambda xs: sorted(x.name for x in xs)
+    try:
+        rel = {
+            "dependencies": {t.name: names(kw["dependencies"].get(t, ())) for t in tlist},
+            "dependents": {t.name: names(kw["dependents"].get(t, ())) for t in tlist},
+            "provides": {p: t.name for p, t in kw["provides"].items()},
+            "unresolved": sorted(kw["unresolved"]),
+            "targets": sorted(kw["targets"]),
+        }
+        ep = idx.method(gcls, "endpoints")
+        eobj = Obj("graph", targets=kw["targets"], dependents=kw["dependents"], dependencies=kw["dependencies"], **{"__class__": gcls})
+        rel["endpoints"] = names(PureInterp(ctx).call(ep, (), {}, self_obj=eobj))
+    except (KeyError, AttributeError, TypeError, Raised, Unsupported) as exc:
+        return "unsupported", f"result not understood: {exc}"
+    return "ok", rel
+
+
+def graph_oracle(spec, existing):
+    prov = {}
+    for name, (ins, outs) in spec.items():
+        for o in outs:
+            if o in prov:
+                return "raise", "FileProvidedByMultipleTargetsError"
+            prov[o] = name
+    deps = {n: sorted({prov[i] for i in ins if i in prov}) for n, (ins, outs) in spec.items()}
+    unresolved = sorted({i for n, (ins, outs) in spec.items() for i in ins if i not in prov})
+    for u in unresolved:
+        if u not in existing:
+            return "raise", "UnresolvedInputError"
+    # cycles
+    colour = {}
+    def visit(n, stack):
+        colour[n] = 1
+        for d in deps[n]:
+            if colour.get(d) == 1:
+                return True
+            if d not in colour and visit(d, stack):
+                return True
+        colour[n] = 2
+        return False
+    for n in spec:
+        if n not in colour and visit(n, []):
+            return "raise", "CircularDependencyError"
+    dependents = {n: sorted(m for m in spec if n in deps[m]) for n in spec}
+    return "ok", {"dependencies": deps, "dependents": dependents, "provides": prov, "unresolved": unresolved, "targets": sorted(spec),
+                  "endpoints": sorted(n for n in spec if not dependents[n])}
+
+
+GRAPH_WITNESSES = [
+    ("diamond, producers first", {"A": (["s"], ["a"]), "B": (["a"], ["b"]), "C": (["a"], ["c"]), "D": (["b", "c"], ["d"])}, ["A", "B", "C", "D"], {"s"}),
+    ("diamond, consumers first", {"A": (["s"], ["a"]), "B": (["a"], ["b"]), "C": (["a"], ["c"]), "D": (["b", "c"], ["d"])}, ["D", "C", "B", "A"], {"s"}),
+    ("diamond, two consumers before their producer", {"A": (["s"], ["a"]), "B": (["a"], ["b"]), "C": (["a"], ["c"]), "D": (["b", "c"], ["d"])}, ["B", "C", "D", "A"], {"s"}),
+    ("two endpoints and an isolated target", {"A": ([], ["a"]), "B": (["a"], ["b"]), "C": (["a"], []), "I": ([], ["i"])}, ["I", "C", "B", "A"], set()),
+    ("provided input that is not on disk yet", {"A": ([], ["a"]), "B": (["a"], ["b"])}, ["B", "A"], set()),
+    ("existing source file", {"A": (["src"], ["a"])}, ["A"], {"src"}),
+    ("two producers of one file", {"X": ([], ["f"]), "Y": ([], ["f"])}, ["X", "Y"], set()),
+    ("missing source file", {"X": (["nowhere"], ["x"])}, ["X"], set()),
+    ("self-loop", {"X": (["f"], ["f"])}, ["X"], set()),
+    ("2-cycle next to a healthy chain (not reachable from its endpoint)", {"P": ([], ["p"]), "Q": (["p"], ["q"]), "R": (["s1"], ["s2"]), "S": (["s2"], ["s1"])}, ["P", "Q", "R", "S"], set()),
+    ("3-cycle behind a tail", {"A": (["c"], ["a"]), "B": (["a"], ["b"]), "C": (["b"], ["c"]), "T": (["c"], ["t"])}, ["T", "A", "B", "C"], set()),
+]
+
+
+def graph_witnesses(ctx):
+    """[(name, got, expected)] for every witness workflow."""
+    if "graph_witnesses" in ctx.shared:
+        return ctx.shared["graph_witnesses"]
+    out = []
+    for name, spec, order, existing in GRAPH_WITNESSES:
+        got = eval_graph(ctx, spec, order, existing)
+        want = graph_oracle(spec, existing)
+        out.append((name, got, want))
+    ctx.shared["graph_witnesses"] = out
+    return out
+
+
+def eval_slurm_states(ctx, n_ids, accounting):
+    """SlurmOps.get_job_states with the scheduler commands replaced by recording hooks that answer like squeue/sacct."""
+    ci = ctx.index.cls("gwf.backends.slurm:SlurmOps")
+    m = ctx.index.method(ci, "get_job_states")
+    ids = [str(i) for i in range(1, n_ids + 1)]
+    sacct_queries = []
+    squeue_calls = []
+
+    def fake_call(exe, *args, **kw):
+        args = [str(a) for a in args]
+        if exe == "squeue":
+            squeue_calls.append(args)
+            return "1;R\n999999;R\n"
+        if exe == "sacct":
+            req = []
+            if "--jobs" in args:
+                req = args[args.index("--jobs") + 1].split(",")
+            else:
+                for a in args:
+                    if a.startswith("--jobs="):
+                        req = a[len("--jobs="):].split(",")
+                    elif a.startswith("-j"):
+                        req = a[2:].lstrip("=").split(",")
+            sacct_queries.append(req)
+            return "".join(f"{j}|{'FAILED' if j in ('1', str(n_ids)) else 'COMPLETED'}\n" for j in req if j)
+        raise Unsupported(f"unexpected command {exe}")
+
+    interp = PureInterp(ctx, hooks={"gwf.backends.utils.call": fake_call})
+    interp.max_depth = 10
+    obj = Obj("ops", working_dir=PROJ, log_mode="full", accounting_enabled=accounting, target_defaults={}, **{"__class__": ci})
+    try:
+        res = interp.call(m, (list(ids),), {}, self_obj=obj)
+    except (Raised, Unsupported) as exc:
+        return None, f"{exc}", sacct_queries, squeue_calls, m
+    return res, None, sacct_queries, squeue_calls, m
